@@ -25,7 +25,7 @@ CHECKS = {
              'histories are sampled.',
         design='5/C01', technique='deterministic simulation: the op budget as an enumerated crash point (kill at the N-th operation) against an unbounded twin run',
         note='K is counted by wrappers around every Op subclass\' eval installed from /verif (not read from the VM); '
-             'programs whose unbounded run exceeds 9000 operations or touches the interpreter's recursion limit are skipped; with a swallowing host only the gate '
+             'programs whose unbounded run exceeds 9000 operations or touches the recursion limit of the interpreter are skipped; with a swallowing host only the gate '
              'count is demanded.'),
     'C03': dict(
         category='exploration',
